@@ -230,6 +230,14 @@ def do_lib_op(op, S):
             if v == "1":
                 tf.torrent.TorrentFile(path=root, piece_length=plen,
                                        outfile=mpath, progress=0).write()
+            elif v in ("2c", "3c", "1a"):
+                # the class creators used by library callers / interactive mode
+                cls = {"2c": tf.torrent.TorrentFileV2,
+                       "3c": tf.torrent.TorrentFileHybrid,
+                       "1a": tf.torrent.TorrentFile}[v]
+                extra = {"align": True} if v == "1a" else {}
+                cls(path=root, piece_length=plen, outfile=mpath, progress=0,
+                    **extra).write()
             elif v in "23":
                 tf.torrent.TorrentAssembler(path=root, piece_length=plen,
                                             outfile=mpath, progress=0,
@@ -402,6 +410,22 @@ class HistoryCheck:
                 for f in fs_enabled(m0):
                     out.append([c, x, f, x])
                     out.append([c, x, f, c, x])
+        # every creator (incl. the class creators that are not in the BFS
+        # alphabet) at two piece lengths and on two roots, in both orders,
+        # with the multi-piece file at 3/2 and at 9/5 pieces
+        kinds = ["1", "2", "3", "2c", "3c", "1a"]
+        for k in kinds:
+            a, b = f"create:{k}", f"create:{k}:p32"
+            for pre in ([], ["grow:a"]):
+                out.append(pre + [a, b])
+                out.append(pre + [b, a])
+                out.append(pre + [a, "grow:a" if not pre else "shrink:a", b])
+            out.append([f"create:{k}:solo", a])
+            out.append([a, f"create:{k}:solo", b])
+        for k1 in kinds:
+            for k2 in kinds:
+                if k1 != k2:
+                    out.append(["grow:a", f"create:{k1}:p32", f"create:{k2}"])
         return out
 
     def run_group(self, g):
